@@ -33,8 +33,14 @@ RecvKinds == {"rv_idx_read", "rv_idx_write", "rv_idx_opwrite", "rv_push", "rv_le
 (* variable of the same name, which must stay untouched; a module-level function does the same to a module variable *)
 WrKinds == {"wr_opadd", "wr_opsub", "wr_opmul", "wr_modify", "wr_opadd_loop", "wr_opadd_if", "wr_opadd_nested"}
 
+(* sixth family: the literals use a module-level variable, and the function that creates them declares a variable of the   *)
+(* same name and type only *afterwards* (a scratch local, the counter of a later loop): when the literals are made the name  *)
+(* still denotes the module-level variable, and that is the one they share - with the owner, with each other, and with the   *)
+(* literals of a second run of the maker                                                                                    *)
+LateKinds == {"late_local", "late_counter", "late_typed"}
+
 VARIABLES pos, modx
-Init == pos \in Positions \cup ModKinds \cup ClosKinds \cup DrvKinds \cup RecvKinds \cup WrKinds /\ modx \in BOOLEAN
+Init == pos \in Positions \cup ModKinds \cup ClosKinds \cup DrvKinds \cup RecvKinds \cup WrKinds \cup LateKinds /\ modx \in BOOLEAN
 Next == UNCHANGED <<pos, modx>>
 
 FT == "fn() -> int"
@@ -196,7 +202,23 @@ ClosProg ==
       Print(Call(V("step"), <<>>)), Print(Call(V("step"), <<>>)), Print(Call(V("reset"), <<>>)), Print(Call(V("step"), <<>>)),
       Print(S("end"))>>
 
+LateProg ==
+    <<Let("x", I(50)),
+      Let("mk", Fn("mk", <<>>, "[" \o FT \o "...]",
+                   <<Let("rd", Fn("rd", <<>>, "int", <<Ret(X)>>)),
+                     Let("wr", Fn("wr", <<>>, "int", <<Modify("x", Bin("+", X, I(1))), Ret(X)>>))>>
+                   \o (CASE pos = "late_local" -> <<Let("x", I(3)), Print(X)>>
+                          [] pos = "late_typed" -> <<LetT("x", "int", I(3)), Print(X)>>
+                          [] pos = "late_counter" -> <<From(I(0), I(2), FALSE, <<>>, "x", <<Print(X)>>)>>)
+                   \o <<Ret(List(<<V("rd"), V("wr")>>))>>)),
+      Let("fs", Call(V("mk"), <<>>)), Let("z0", I(0)), Let("z1", I(1)),
+      Let("rd", Idx(V("fs"), V("z0"))), Let("wr", Idx(V("fs"), V("z1"))),
+      Print(Call(V("rd"), <<>>)), Let("x", I(60)), Print(Call(V("rd"), <<>>)), Print(Call(V("wr"), <<>>)), Print(X), Print(Call(V("rd"), <<>>))>>
+    \o (IF modx THEN <<Let("fs2", Call(V("mk"), <<>>)), Let("wr2", Idx(V("fs2"), V("z1"))), Print(Call(V("wr2"), <<>>)), Print(X), Print(Call(V("rd"), <<>>))>> ELSE <<>>)
+    \o <<Print(S("end"))>>
+
 Prog ==
+    IF pos \in LateKinds THEN LateProg ELSE
     IF pos \in ClosKinds THEN ClosProg ELSE
     IF pos \in WrKinds THEN WrProg ELSE
     IF pos \in RecvKinds THEN RvProg ELSE
